@@ -864,8 +864,15 @@ regp_recv(RegP *p, RPMaybeFrame *mf)
         return early_ebusy(p, &fb);
     case ENOMEM:
         /* Send ERXOVERFLOW reply, based on fallback buffer */
-        byte_buffer_rewind(&fb);
-        byte_buffer_add(&fb, mf->frame->raw.memory, RP_HEADER_SIZE);
+        /* The frame buffer was not parsed (and never will be); the received
+         * octets start right behind the RPFrame in there. Take as much of a
+         * header from them as we got. */
+        byte_buffer_reset(&fb);
+        {
+            const size_t got = cs.buffer.used - sizeof(RPFrame);
+            byte_buffer_add(&fb, cs.buffer.data + sizeof(RPFrame),
+                            got < RP_HEADER_SIZE ? got : RP_HEADER_SIZE);
+        }
         return early_erxoverflow(p, &fb);
     default:
         /* Unexpected error. Really shouldn't happen. */
